@@ -47,6 +47,12 @@
  *                                         right after Begin into context <copyTo>, which then does the work)
  *       blcdict <chunk> <d>               ZSTD_compressBegin_usingCDict / Continue / End
  *   A <c> <off> <len> <flush>             abandoned frame: stream <len> bytes (then flush if 1), never end
+ *   G <c> <off> <len>                     ZSTD_generateSequences on the context (history item; the sequence array is freed right after)
+ *   prefixa <c> <off> <len> <sa>          ZSTD_CCtx_refPrefix of a COPY placed at srcArena+sa (a following F with <sa>+<len> makes
+ *                                         the prefix end exactly where the input starts)
+ *   W <c> <off> <len> <span>              ZSTD_compress2 with the sticky parameters: once with a large capacity (size r0), then with
+ *                                         every capacity r0 .. r0+span; prints "W off len r0 nerr ndiff firstcap firstsize"
+ *       udictc <level> <doff> <dlen>      (F api) ZSTD_compress_usingDict, the dictionary copied right in front of the input (<sa> >= <dlen>)
  *   P lines (trace on, streaming frames): after every input piece "P ctx piece consumedSrcSize inBuffPos inToCompress inBuffTarget streamStage"
  * Output: "F fid rc size hash rt nerr sc nblocks lastBlockEmpty [hex]"  (sc: 1 = e_end shortcut taken, -1 = buffered path, -2 = not a streaming frame)  (rc 0 ok, else "E <errorname>"), D / J lines, "E ..." for API errors.
  */
@@ -430,6 +436,37 @@ int main(void) {
             prefSet[c] = 0;
             printf("A %d\n", c);
             dump(c, "abandon");
+        } else if (!strcmp(cmd, "G")) {
+            int c; size_t o, l, r, cap2; ZSTD_Sequence* sq;
+            if (fscanf(in, "%d %zu %zu", &c, &o, &l) != 3) return 2;
+            cap2 = ZSTD_sequenceBound(l); sq = (ZSTD_Sequence*)malloc(sizeof(ZSTD_Sequence) * cap2);
+            need_arena(l); memcpy(srcArena, blob + o, l);
+            r = ZSTD_generateSequences(C[c], sq, cap2, srcArena, l);
+            free(sq);
+            if (ZSTD_isError(r)) perr("G", r);
+            prefSet[c] = 0;
+            printf("G %d %zu\n", c, ZSTD_isError(r) ? (size_t)0 : r);
+            dump(c, "genseq");
+        } else if (!strcmp(cmd, "prefixa")) {
+            int c; size_t o, l, sa, r; if (fscanf(in, "%d %zu %zu %zu", &c, &o, &l, &sa) != 4) return 2;
+            need_arena(sa + l); memcpy(srcArena + sa, blob + o, l);
+            r = ZSTD_CCtx_refPrefix(C[c], srcArena + sa, l); if (ZSTD_isError(r)) perr("prefixa", r);
+            else { prefSet[c] = l > 0; prefOff[c] = o; prefLen[c] = l; }
+        } else if (!strcmp(cmd, "W")) {
+            int c; size_t o, l, span, r0, k, nerr = 0, ndiff = 0, fcap = 0, fsize = 0; BYTE* ref;
+            if (fscanf(in, "%d %zu %zu %zu", &c, &o, &l, &span) != 4) return 2;
+            need_arena(l + span + 4096); memcpy(srcArena, blob + o, l); curDictKind = 0; prefSet[c] = 0;
+            r0 = ZSTD_compress2(C[c], dstArena, ZSTD_compressBound(l) + 4096, srcArena, l);
+            if (ZSTD_isError(r0)) { perr("W", r0); printf("W %zu %zu 0 1 0 0 0\n", o, l); continue; }
+            ref = (BYTE*)malloc(r0 + 1); memcpy(ref, dstArena, r0);
+            for (k = 0; k <= span; k++) {
+                size_t const r = ZSTD_compress2(C[c], dstArena, r0 + k, srcArena, l);
+                if (ZSTD_isError(r)) { nerr++; continue; }
+                if (r != r0 || memcmp(ref, dstArena, r0)) { if (!ndiff) { fcap = r0 + k; fsize = r; } ndiff++; }
+                if (!decode_ok(dstArena, r, srcArena, l)) { ndiff += 1000000; }
+            }
+            free(ref);
+            printf("W %zu %zu %zu %zu %zu %zu %zu\n", o, l, r0, nerr, ndiff, fcap, fsize);
         } else if (!strcmp(cmd, "F")) {
             int c, fid, hex; size_t off, len, sa, da, r = 0; char api[32]; BYTE *src, *dst; size_t dstCap;
             if (fscanf(in, "%d %d %zu %zu %zu %zu %d %31s", &c, &fid, &off, &len, &sa, &da, &hex, api) != 8) return 2;
@@ -448,6 +485,11 @@ int main(void) {
                 int level; size_t doff, dlen; if (fscanf(in, "%d %zu %zu", &level, &doff, &dlen) != 3) return 2;
                 curDictKind = dlen ? 2 : 0; curDictOff = doff; curDictLen = dlen;
                 r = ZSTD_compress_usingDict(C[c], dst, ZSTD_compressBound(len), src, len, blob + doff, dlen, level);
+            } else if (!strcmp(api, "udictc")) {
+                int level; size_t doff, dlen; if (fscanf(in, "%d %zu %zu", &level, &doff, &dlen) != 3 || dlen > sa) return 2;
+                curDictKind = dlen ? 2 : 0; curDictOff = doff; curDictLen = dlen;
+                memcpy(src - dlen, blob + doff, dlen);
+                r = ZSTD_compress_usingDict(C[c], dst, ZSTD_compressBound(len), src, len, src - dlen, dlen, level);
             } else if (!strcmp(api, "ucdict")) {
                 int d; if (fscanf(in, "%d", &d) != 1) return 2;
                 curDictKind = 2; curDictOff = CDoff[d]; curDictLen = CDlen[d];
